@@ -32,7 +32,9 @@ RULE = (
     "cases = (task, configuration). task: a workflow program of the C03 generator (<= 4 nodes, classes "
     "shipped by value), a python task WT1/WT2/WL with generated str/int/list inputs, Ident over a value "
     "of the value grammar (containers, sets, by-value objects, functions, numpy arrays), or a "
-    "dynamically defined shell echo task. configuration: worker debug | cf(n_procs 1-2), 0-2 read-only "
+    "dynamically defined shell echo task. configuration: worker debug | cf(n_procs 1-3; for "
+    "non-workflow tasks, whose job never hands work to the pool, also n_procs not given / one below / "
+    "equal to / one above / 2x / 8x+1 the CPUs available to the process, labels n_procs_*), 0-2 read-only "
     "caches (optionally already holding the result), max_concurrent, propagate_rerun, rerun, audit "
     "flags x messenger (none/file/print), clean_stale_locks, environment None/native, job name, a "
     "by-value pre_run hook, checksum touched before pickling or not, task object already run "
@@ -50,6 +52,9 @@ ASSUMPTIONS = [
     "Submitter.__call__, not by Job())",
     "shell tasks are compared differentially only (child vs in-process), values avoid quotes (C23)",
     "workers other than debug/cf are not instantiated (C28/C39 simulate those back-ends)",
+    "a cf worker with more processes than CPUs is only round-tripped and attached to jobs that run "
+    "synchronously in the loading process (python/shell tasks): the pool is created but never forks; "
+    "workflow jobs under cf keep n_procs <= 3. Parent and child see the same CPU affinity mask",
 ]
 SHARDS = {"quick": 16, "thorough": 16}
 WALL = {"quick": 300, "thorough": 1500}  # soft per-shard deadline; the budgets below need far less
@@ -171,6 +176,19 @@ def _reference(t):
     return None
 
 
+def resolve_n_procs(cfg):
+    """-> (n_procs or None for 'not given', label)"""
+    rel = cfg.get("n_procs_rel")
+    if rel is None:
+        return cfg["n_procs"], "n_procs_small"
+    if rel == "default":
+        return None, "n_procs_default"
+    cpus = len(os.sched_getaffinity(0)) if hasattr(os, "sched_getaffinity") else os.cpu_count()
+    n = {"cpus-1": max(1, cpus - 1), "cpus": cpus, "cpus+1": cpus + 1, "2*cpus": 2 * cpus,
+         "8*cpus+1": 8 * cpus + 1}[rel]
+    return n, "n_procs_" + ("below_cpus" if n < cpus else "equal_cpus" if n == cpus else "above_cpus")
+
+
 def make_submitter(cfg, d):
     from pydra.engine.submitter import Submitter
     from pydra.environments import native
@@ -194,13 +212,15 @@ def make_submitter(cfg, d):
     if cfg["environment"] == "native":
         kw["environment"] = native.Environment()
     if cfg["worker"] == "cf":
+        n_procs, _ = resolve_n_procs(cfg)
+        nkw = {} if n_procs is None else dict(n_procs=n_procs)
         if cfg.get("worker_as_object"):
             # a configured worker object instead of a plug-in name + keyword arguments
             from pydra.workers.cf import ConcurrentFuturesWorker
 
-            kw["worker"] = ConcurrentFuturesWorker(n_procs=cfg["n_procs"])
+            kw["worker"] = ConcurrentFuturesWorker(**nkw)
         else:
-            kw["n_procs"] = cfg["n_procs"]
+            kw.update(nkw)
     elif cfg.get("worker_as_object"):
         from pydra.workers.debug import DebugWorker
 
@@ -294,6 +314,10 @@ def check_case(case):
     kind = t["kind"]
     LAST.clear()
     LAST.update(excluded=None, nontrivial=False, labels=[f"kind_{kind}", f"worker_{cfg['worker']}"])
+    if cfg["worker"] == "cf":
+        if kind == "wf" and cfg.get("n_procs_rel"):
+            raise HarnessError("a pool sized relative to the CPUs must not be attached to a workflow job")
+        LAST["labels"].append(resolve_n_procs(cfg)[1])
     d = scratchdir.new("c29")
     closers = []
     try:
